@@ -411,6 +411,55 @@ mod if_alloc {
             }
         }
 
+        /// A reference to the state of a shared channel (verification hook)
+        #[cfg(futures_intrusive_verif)]
+        pub struct VerifSharedOneshot<MutexType, T>
+        where
+            MutexType: RawMutex,
+            T: 'static,
+        {
+            inner: alloc::sync::Arc<
+                GenericOneshotChannelSharedState<MutexType, T>,
+            >,
+        }
+
+        #[cfg(futures_intrusive_verif)]
+        impl<MutexType, T> core::fmt::Debug for VerifSharedOneshot<MutexType, T>
+        where
+            MutexType: RawMutex,
+        {
+            fn fmt(&self, f: &mut core::fmt::Formatter) -> core::fmt::Result {
+                f.debug_struct("VerifSharedOneshot").finish()
+            }
+        }
+
+        #[cfg(futures_intrusive_verif)]
+        impl<MutexType, T> VerifSharedOneshot<MutexType, T>
+        where
+            MutexType: RawMutex,
+        {
+            /// See `GenericOneshotChannel::verif_snapshot`
+            pub fn verif_snapshot(
+                &self,
+                tag_of: &dyn Fn(&T) -> u64,
+            ) -> crate::verif::Snapshot {
+                self.inner.channel.verif_snapshot(tag_of)
+            }
+        }
+
+        #[cfg(futures_intrusive_verif)]
+        impl<MutexType, T> GenericOneshotSender<MutexType, T>
+        where
+            MutexType: RawMutex,
+        {
+            /// Returns a reference to the shared channel state
+            pub fn verif_shared(&self) -> VerifSharedOneshot<MutexType, T> {
+                VerifSharedOneshot {
+                    inner: self.inner.clone(),
+                }
+            }
+        }
+
         // Export parking_lot based shared channels in std mode
         #[cfg(feature = "std")]
         mod if_std {
@@ -448,3 +497,23 @@ mod if_alloc {
 
 #[cfg(feature = "alloc")]
 pub use self::if_alloc::*;
+
+#[cfg(all(futures_intrusive_verif, feature = "alloc"))]
+mod verif_hooks {
+    use super::*;
+    use crate::channel::channel_future::verif_hooks::describe_recv;
+    use crate::verif::{snap_list, Snapshot, NO_VALUE};
+
+    impl<MutexType: RawMutex, T> GenericOneshotChannel<MutexType, T> {
+        /// Scalars: `[is_fulfilled, tag of the stored value]`, queue: waiters
+        pub fn verif_snapshot(&self, tag_of: &dyn Fn(&T) -> u64) -> Snapshot {
+            let state = self.inner.lock();
+            let mut snap = Snapshot::default();
+            snap.scalars.push(state.is_fulfilled as u64);
+            snap.scalars
+                .push(state.value.as_ref().map_or(NO_VALUE, |v| tag_of(v)));
+            snap_list(&state.waiters, &mut snap, &describe_recv);
+            snap
+        }
+    }
+}
